@@ -35,15 +35,27 @@ def _io_sets(vs, io):
     return inputs, set(vs) - inputs
 
 
-def h_dt(f, N, sem, io, mode):
+def _modular(f, defs):
+    """(specification text, names to declare besides the variables, formula for the oracle): with `defs` the text defines the named
+    sub-formulas first (several assertions in one text - the parser then SHARES one node object between all references) and the
+    oracle sees the inlined formula"""
     f = T(f)
+    if not defs:
+        return 'out = ' + text(f), [], f
+    from .c09 import inline
+    dl = [(n, T(d)) for n, d in defs]
+    return '\n'.join('%s = %s;' % (n, text(d)) for n, d in dl) + '\nout = ' + text(f) + ';', [n for n, _ in dl], inline(f, dict(dl))
+
+
+def h_dt(f, N, sem, io, mode, defs=None):
+    spec_text, names, f = _modular(f, defs)
     vs = sorted(variables(f) | set(io))
     uf = refsem.has(f, {'sqrt', 'exp', 'ln', 'pow', 'log'})
     h = refsem.hor(f) if mode == 'pastified' else 0
 
     def body(env):
         A = env.A
-        s = dt.make_spec('combined', 'out = ' + text(f), vs, io={v: t for v, t in io.items() if t != 'default'},
+        s = dt.make_spec('combined', spec_text, vs + names, io={v: t for v, t in io.items() if t != 'default'},
                          semantics=_sem(sem), pastify=(mode == 'pastified'))
         w = dt.trace(env, vs, N)
         if uf:
@@ -69,13 +81,13 @@ def h_dt(f, N, sem, io, mode):
     return body
 
 
-def h_ct(f, ns, sem, io, mode):
-    f = T(f)
+def h_ct(f, ns, sem, io, mode, defs=None):
+    spec_text, names, f = _modular(f, defs)
     vs = sorted(variables(f) | set(io))
 
     def body(env):
         A = env.A
-        s = ct.make_spec('combined', 'out = ' + text(f), vs, io={v: t for v, t in io.items() if t != 'default'},
+        s = ct.make_spec('combined', spec_text, vs + names, io={v: t for v, t in io.items() if t != 'default'},
                          semantics=_sem(sem))
         sigs = {v: ct.signal(env, v, n, 'zero') for v, n in zip(vs, ns)}
         args = [[v, [list(p) for p in sigs[v]]] for v in vs]
@@ -216,6 +228,39 @@ def obligations(tier, rng):
                 io = {'x': xa, 'y': ya, 'z': 'output'}
                 ioname = ''.join(io[v][0] for v in 'xyz')
                 out.append(ob('C06', 'dt', 'dt-pastified/%s/%s/%s' % (sem, ioname, text(f)), f=f, N=refsem.hor(f) + 3, sem=sem, io=io, mode='pastified'))
+    # (2e) named sub-formulas: every reference to a name is the SAME node object, so whatever a parent node does to the in/out
+    # variable lists of its operand is seen by the other parents too; arithmetic and predicate definitions, both definition orders
+    D, S_, T_ = ('var', 'dsub'), ('var', 'psub'), ('var', 'qsub')
+    C3 = ('const', 3.0)
+    for dname, ddef in [('abs', ('abs', X)), ('var', X), ('sub', ('sub', X, C1)), ('neg', ('neg', X))]:
+        for order in (0, 1):
+            pd = [('qsub', ('leq', D, Y)), ('psub', ('leq', D, C3))]
+            defs = [('dsub', ddef)] + (pd if order == 0 else pd[::-1])
+            for mname, main in [('s->t', ('implies', S_, T_)), ('t&s', ('and', T_, S_)), ('once s|t', ('or', ('once_t', S_, 0, 1), T_))]:
+                for sem in SEMS[1:]:
+                    for xa, ya in itertools.product(('input', 'output'), repeat=2):
+                        io = {'x': xa, 'y': ya}
+                        for mon in mons:
+                            dense = mon.startswith('ct')
+                            if dense and mname == 'once s|t':
+                                continue
+                            if quick and (dname in ('sub', 'neg') and (mname != 's->t' or dense)):
+                                continue
+                            if quick and dense and (sem != ('output_robustness' if mon == 'ct-offline' else 'input_vacuity') or dname != 'abs' or mname != 's->t'):
+                                continue
+                            name = '%s/%s/%s%s/shared:d=%s,order%d/%s' % (mon, sem, xa[0], ya[0], dname, order, mname)
+                            if dense:
+                                out.append(ob('C06', 'ct', name, f=main, ns=[2, 2], sem=sem, io=io, mode=mon.split('-')[1], defs=defs, max_paths=20000, wall=600))
+                            else:
+                                out.append(ob('C06', 'dt', name, f=main, N=N, sem=sem, io=io, mode=mon.split('-')[1], defs=defs))
+    # a predicate definition referenced twice, next to a predicate over the other variable
+    for sem in SEMS[1:]:
+        for xa, ya in itertools.product(('input', 'output'), repeat=2):
+            io = {'x': xa, 'y': ya}
+            defs = [('psub', ('geq', X, C1))]
+            main = ('and', ('or', S_, ('geq', Y, C1)), ('once_t', S_, 0, 1))
+            for mon in mons[:2]:
+                out.append(ob('C06', 'dt', '%s/%s/%s%s/shared-pred-twice' % (mon, sem, xa[0], ya[0]), f=main, N=N, sem=sem, io=io, mode=mon.split('-')[1], defs=defs))
     # (3) seeded sample of the remaining product
     for i in range(100 if quick else 3000):
         p = rng.choice(allp)
